@@ -14,6 +14,7 @@ OVERLAY = {
     PKG + "/zz_c11_run_verif_test.go": "harness/overlay/relay/c11_run_verif_test.go",
     PKG + "/zz_c11_gen_verif_test.go": "harness/overlay/relay/c11_gen_verif_test.go",
     PKG + "/zz_c11_main_verif_test.go": "harness/overlay/relay/c11_main_verif_test.go",
+    PKG + "/zz_c11_client_verif_test.go": "harness/overlay/relay/c11_client_verif_test.go",
 }
 
 
@@ -40,6 +41,17 @@ def consts(ctx):
         ctx.add_const_raw("Definition gc_period_ms : Z := %d." % (60000 if m.group(1) == "Minute" else 1000),
                           "period of the gc ticker in Relay.background() (source text)")
     ctx.obligations.append(("consts:gc_period", ok, "" if ok else "ticker literal not found in background()"))
+    # proto.RecordDomain / proto.RecordCodec (source text of proto/voucher.go)
+    vsrc = open(os.path.join(REPO, "p2p/protocol/circuitv2/proto/voucher.go")).read()
+    md = re.search(r'const RecordDomain = "([^"]*)"', vsrc)
+    mc = re.search(r"var RecordCodec = \[\]byte\{([^}]*)\}", vsrc)
+    ok2 = md is not None and mc is not None
+    if ok2:
+        ctx.add_const_raw("Definition RecordDomain_z : list Z := [%s]." % "; ".join(str(b) for b in md.group(1).encode()),
+                          "proto.RecordDomain = %r" % md.group(1))
+        ctx.add_const_raw("Definition RecordCodec_z : list Z := [%s]." % "; ".join(str(int(x.strip(), 0)) for x in mc.group(1).split(",") if x.strip()),
+                          "proto.RecordCodec")
+    ctx.obligations.append(("consts:voucher_domain_codec", ok2, "" if ok2 else "RecordDomain/RecordCodec not found in voucher.go"))
 
 
 def harness(ctx, casefile, tier, seed):
